@@ -50,6 +50,10 @@ def run_one(d, name):
     if want == 'NONE':   # benign variant: behaviour-preserving edit, the check must stay silent
         if r.returncode == 0:
             return '%-40s BENIGN-OK (no report, as required)' % name, 0
+        if r.returncode == 2 and not fired:
+            # fail-closed: an anchor moved, no verdict is given - tolerated for a benign edit, but shown
+            why = [l for l in out.splitlines() if 'ANCHOR-MISSING' in l or 'INFRA' in l][:1]
+            return '%-40s BENIGN-NOVERDICT (exit 2: %s)' % (name, (why[0][:150] if why else '?')), 0
         return '%-40s FALSE-ALARM (rc=%d)\n%s' % (name, r.returncode, out[-800:]), 1
     hit = [l for l in fired if want is None or ('rule %s ' % want) in l]
     if r.returncode == 1 and hit:
